@@ -4,6 +4,7 @@ package v1
 
 import (
 	"bytes"
+	"time"
 
 	abcicli "github.com/tendermint/tendermint/abci/client"
 	abci "github.com/tendermint/tendermint/abci/types"
@@ -19,9 +20,9 @@ type vpApp struct {
 }
 
 func (a *vpApp) SetResponseCallback(cb abcicli.Callback) {}
-func (a *vpApp) Error() error                             { return nil }
-func (a *vpApp) FlushAsync() *abcicli.ReqRes              { return abcicli.NewReqRes(abci.ToRequestFlush()) }
-func (a *vpApp) FlushSync() error                         { return nil }
+func (a *vpApp) Error() error                            { return nil }
+func (a *vpApp) FlushAsync() *abcicli.ReqRes             { return abcicli.NewReqRes(abci.ToRequestFlush()) }
+func (a *vpApp) FlushSync() error                        { return nil }
 func (a *vpApp) CheckTxSync(req abci.RequestCheckTx) (*abci.ResponseCheckTx, error) {
 	return a.verdict(req), nil
 }
@@ -167,8 +168,8 @@ func VP_C12_V1_k3()            { vpC12V1(3, 2, 2, 2, true, false) }
 func VP_C12_V1_k3_smallcache() { vpC12V1(3, 2, 2, 1, true, false) }
 func VP_C12_V1_k4()            { vpC12V1(4, 2, 2, 2, true, false) }
 func VP_C12_V1_k4_smallcache() { vpC12V1(4, 2, 2, 1, false, false) }
-func VP_C12_V1_k2_reap()        { vpC12V1(2, 2, 2, 2, false, true) }
-func VP_C12_V1_k3_reap()        { vpC12V1(3, 3, 3, 3, false, true) }
+func VP_C12_V1_k2_reap()       { vpC12V1(2, 2, 2, 2, false, true) }
+func VP_C12_V1_k3_reap()       { vpC12V1(3, 3, 3, 3, false, true) }
 
 // vpGateApp: the application's CheckTx answer takes time: each call yields to the other submitters
 // (a handshake on a channel) before it answers.
@@ -218,4 +219,34 @@ func VP_C12_V1_Concurrent() {
 	vp.Settle()
 	vpInvariant(txmp, cfg)
 	vp.Reach("submitted")
+}
+
+// C12 (reaping order, v1): with more transactions than a small-slice sort handles specially, reaping
+// returns them by priority (highest first) and, within one priority, in arrival order.
+func VP_C12_V1_ReapOrder() {
+	cfg := config.DefaultMempoolConfig()
+	cfg.Size, cfg.CacheSize = 64, 64
+	prios := []int64{5, 9, 5, 7, 9, 3, 7, 5, 3, 9, 7, 5, 9, 3, 7, 5}
+	n := 13 + vp.Choice("extra-transactions", 4)
+	app := &vpApp{}
+	app.verdict = func(req abci.RequestCheckTx) *abci.ResponseCheckTx {
+		return &abci.ResponseCheckTx{Code: abci.CodeTypeOK, GasWanted: 1, Priority: prios[int(req.Tx[0])]}
+	}
+	txmp := NewTxMempool(log.NewNopLogger(), cfg, app, 1)
+	for i := 0; i < n; i++ {
+		if err := txmp.CheckTx(types.Tx{byte(i), 0x72}, nil, mempool.TxInfo{}); err != nil {
+			panic(err)
+		}
+		time.Sleep(time.Millisecond) // arrival times differ
+	}
+	check := func(got types.Txs, what string) {
+		vp.Assert(len(got) == n, "C12.v1.reap-returns-every-transaction-when-unbounded")
+		for k := 1; k < len(got); k++ {
+			a, b := int(got[k-1][0]), int(got[k][0])
+			vp.Assert(prios[a] > prios[b] || (prios[a] == prios[b] && a < b), "C12.v1.reap-order-is-priority-then-arrival")
+		}
+	}
+	check(txmp.ReapMaxTxs(-1), "count")
+	check(txmp.ReapMaxBytesMaxGas(-1, -1), "bytes-gas")
+	vp.Reach("reaped")
 }
